@@ -16,6 +16,12 @@ def fr(x):
     return F(Decimal(repr(float(x))))
 
 
+def step(x):
+    """One step of decimal bookkeeping: the exact decimal result converted to a double and read back as its shortest repr
+    (what `float(Decimal(str(a)) + Decimal(str(b)))` leaves in the account)."""
+    return fr(float(x))
+
+
 class SpotAccount:
     """Cash account: quote and base balance; a buy reserves qty*price at submission."""
 
@@ -53,10 +59,10 @@ class SpotAccount:
     def fill(self, ord_):
         sym, side, type_, qty, price = self.resting.pop(ord_)
         if side == 'buy':
-            self.base[sym] = self.base_of(sym) + qty * (1 - self.fee)
+            self.base[sym] = step(self.base_of(sym) + step(qty * (1 - self.fee)))
         else:
             q = min(qty, self.base_of(sym))
-            self.base[sym] = self.base_of(sym) - q
+            self.base[sym] = step(self.base_of(sym) - q)
             self.quote += q * price * (1 - self.fee)
 
 
@@ -125,12 +131,12 @@ class FuturesAccount:
             self.last_effect = 'open'
         elif (pos > 0) == (eff > 0):
             self.entry[sym] = (abs(pos) * self.entry[sym] + abs(eff) * price) / (abs(pos) + abs(eff))
-            self.qty[sym] = pos + eff
+            self.qty[sym] = step(pos + eff)
             self.last_effect = 'increase'
         else:
             closed = min(abs(eff), abs(pos))
             self.wallet += closed * (price - self.entry[sym]) * (1 if pos > 0 else -1)
-            rest = pos + eff
+            rest = step(pos + eff)
             if rest == 0:
                 self.qty[sym] = F(0)
                 self.entry.pop(sym, None)
